@@ -109,7 +109,7 @@ FLOORS = {'nontrivial': (0.15, _S), 'pre:locked': (0.1, _S), 'pre:singleton-cach
           'clear:inside-0-scopes': (0.3, _S), 'clear:inside-1-scopes': (0.1, _S),
           'clear:inside-2-scopes': (0.1, _S), 'clear:call-pos': (0.12, _S), 'clear:call-kw': (0.12, _S),
           'clear:call-default': (0.12, _S), 'clear:on-worker-thread': (0.15, _S),
-          'hist:hook-registered': (0.08, _S), 'hist:operative-read-failed': (0.03, _S), 'hist:in-worker-singleton': (0.08, _S), 'hist:const-gin-namespace': (0.05, _S),
+          'hist:hook-registered': (0.06, _S), 'hist:operative-read-failed': (0.03, _S), 'hist:in-worker-singleton': (0.05, _S), 'hist:const-gin-namespace': (0.05, _S),
           'hist:const-value-is-REQUIRED-sentinel': (0.03, _S),
           'hist:flaky-in-operative-record-then-broken': (0.02, _S), 'hist:enum-ok': (0.08, _S), 'hist:pfile-failed': (0.08, _S), 'hist:pfile-ok': (0.05, _S),
           'hist:pfile-failed-with-faulty-include': (0.02, _S)}
